@@ -368,7 +368,7 @@ def run(ctx):
     thorough = ctx.tier == "thorough"
     rng = ctx.rng
     jobs = []   # (widths, regs, share of regions that also go through the fetch APIs, label)
-    share = 0.5 if thorough else 0.2
+    share = 0.3 if thorough else 0.2
     for widths in CORPUS:
         blocks = blocks_from_widths(widths)
         small = max(b[-1][2] for b in blocks) <= 12
@@ -377,10 +377,10 @@ def run(ctx):
     for widths in small_tables(thorough):
         blocks = blocks_from_widths(widths)
         jobs.append((widths, regions_small(rng, blocks, 0.5 if thorough else 0.4), share, "small"))
-    for _ in range(400 if thorough else 60):
+    for _ in range(300 if thorough else 60):
         widths = random_blocks(rng)
         blocks = blocks_from_widths(widths)
-        jobs.append((widths, regions_large(rng, blocks, 30 if thorough else 12), 0.5 if thorough else 0.25, "random"))
+        jobs.append((widths, regions_large(rng, blocks, 30 if thorough else 12), 0.3 if thorough else 0.25, "random"))
     for _ in range(60 if thorough else 12):    # large coordinates, up to the int32 coordinate range
         b = rng.choice([2 ** 20, 10 ** 6, 2 ** 28, 2 ** 30 - 1, 999999937])
         widths = []
